@@ -34,8 +34,10 @@
 #if defined(__SANITIZE_ADDRESS__)
 #include <sanitizer/asan_interface.h>
 #define SHIM_POISON(p, n) __asan_poison_memory_region((p), (n))
+#define SHIM_UNPOISON(p, n) __asan_unpoison_memory_region((p), (n))
 #else
 #define SHIM_POISON(p, n) do { } while (0)
+#define SHIM_UNPOISON(p, n) do { } while (0)
 #endif
 
 /* ------------------------------------------------------------------ event stream ---- */
@@ -257,6 +259,8 @@ static struct {
 	int err;
 	int armed;
 	int consumed;
+	void *poisoned;		/* part of the reader's buffer behind the datagram */
+	size_t poisoned_len;
 } rx;
 
 static struct shim_sock *sock_by_fd(int fd)
@@ -375,14 +379,18 @@ int shim_rx_consumed(void)
 
 void shim_rx_clear(void)
 {
+	/* the reader's frame is gone by now; its stack must be ordinary memory again (the
+	 * compiler's epilogue only clears the red zones it has set up itself) */
+	if (rx.poisoned)
+		SHIM_UNPOISON(rx.poisoned, rx.poisoned_len);
 	free(rx.data);
 	memset(&rx, 0, sizeof(rx));
 }
 
 /* read() as seen by trx_if.c: datagram semantics (one datagram per call, silently truncated
  * to the caller's buffer).  The part of the caller's buffer behind the datagram (leaving one
- * octet for a terminator) is poisoned until the caller's frame is left: whoever looks there
- * looks at stale stack, not at the message. */
+ * octet for a terminator) is poisoned until the callback has returned (shim_rx_clear()):
+ * whoever looks there looks at stale stack, not at the message. */
 ssize_t sim_read(int fd, void *buf, size_t count)
 {
 	struct shim_sock *s = sock_by_fd(fd);
@@ -408,8 +416,11 @@ ssize_t sim_read(int fd, void *buf, size_t count)
 		shim_emit("rx_truncated %s %zu %zu", shim_sock_name(fd), rx.len, count);
 	if (n)
 		memcpy(buf, rx.data, n);
-	if (n > 0 && n + 1 < count)
-		SHIM_POISON((char *) buf + n + 1, count - n - 1);
+	if (n > 0 && n + 1 < count) {
+		rx.poisoned = (char *) buf + n + 1;
+		rx.poisoned_len = count - n - 1;
+		SHIM_POISON(rx.poisoned, rx.poisoned_len);
+	}
 	return (ssize_t) n;
 }
 
